@@ -86,7 +86,16 @@ fn build(t: &mut Tape) -> Built {
             }
             let mut s = vec![Stmt::Data(items)];
             // DATA may share its line with other statements
-            if i + 1 < nlines && t.chance(1, 6) {
+            if t.chance(1, 8) {
+                // ... or be the only content of an IF arm (the constants count wherever they stand)
+                let c = E::Bin(Bin::Eq, Box::new(v("Z9")), Box::new(lit(12345)));
+                let data = s.pop().unwrap();
+                s = match t.below(3) {
+                    0 => vec![Stmt::If { c, then_: Arm::Stmts(vec![print_vars(&["Z9"])]), else_: Some(Arm::Stmts(vec![data])), goto_form: false }],
+                    1 => vec![Stmt::If { c, then_: Arm::Stmts(vec![data]), else_: None, goto_form: false }],
+                    _ => vec![Stmt::If { c, then_: Arm::Stmts(vec![data]), else_: Some(Arm::Stmts(vec![Stmt::Let { lv: Lval::Var(Name::new("Z8")), e: lit(1), kw: false }])), goto_form: false }],
+                };
+            } else if i + 1 < nlines && t.chance(1, 6) {
                 // behind an unconditional jump: never executed, still part of the data
                 s.insert(0, Stmt::Goto(numbers[i + 1]));
             } else if t.chance(1, 5) {
